@@ -1012,16 +1012,12 @@ def classify(rec, gen, flags):
     site = default_site(rec, gen)
     schema = KINDS[m["kind"]][0] if m["kind"] in KINDS else {}
     if site is None:
-        # the IR carries no default at all: nothing is realised anywhere
-        if kinds <= {"invalid-accepted", "default-dropped"} and not rec["valid"]:
-            if schema.get("type") == "number":
-                return "C06-F9"
-            if m["pos"] == "type":
-                return "C06-F10"
+        # the IR carries no default at all (was: F9 number schemas, F10 alias definitions -- both FIXED, so this is
+        # no longer a recognised class: an invalid default that is silently discarded is a VIOLATION)
         return None
     fl = dict(zip(FLAG_NAMES, [c == "T" for c in flags]))
     ents = gen["dump"]["entries"]
-    # classes F1-F6, F8 and F13 are FIXED (findings/C06.json "fixed"): they are deliberately not recognised here, so a
+    # classes F1-F6, F8-F10, F12 and F13 are FIXED (findings/C06.json "fixed"): they are deliberately not recognised here, so a
     # reproduction is reported as a VIOLATION
     if fl["native"] and kinds == {"runtime-panic"} and not rec["valid"]:
         return "C06-F7"
@@ -1032,14 +1028,6 @@ def classify(rec, gen, flags):
         if m["pos"] == "ref" and tgt.get("type") == "integer" and ("minimum" in tgt or "maximum" in tgt) \
                 and isinstance(site[1], int):
             return "C06-F11"
-    # F12 (Coq class Known_F12: a member with its own default is absent and rendered `Default::default()`): the realised
-    # value differs from what serde fills in, or -- when the member's type has no Default impl -- rustc rejects (E0277)
-    if fl["f12"] and rec["valid"]:
-        if kinds == {"different-value"} and all(v.get("note") for v in rec["viol"]):
-            return "C06-F12"
-        if kinds <= {"uncompilable", "builder-chunk-uncompilable"} and \
-                all(e[0] == "E0277" for v in rec["viol"] for e in v.get("errors", [])):
-            return "C06-F12"
     return None
 
 
@@ -1076,7 +1064,7 @@ THEOREMS = [
     "C06_unit_null_optional",
     "C06_default_typed_partial",
     "C06_tuple1_variant_example",
-    "C06_nested_default_fill_refuted",
+    "C06_nested_default_fill_example",
     "C06_default_exact_partial",
     "C06_regression_examples",
 ]
@@ -1104,8 +1092,8 @@ def run(ctx):
     ctx.assumptions = [
         "reading 3.1: a panic while the schema is added counts as rejection; a panic in to_stream() after Ok is a violation",
         "reading: a VALID default that typify rejects at add time is not a violation (the text only forbids accepting invalid ones)",
-        "reading: a valid default that is not honoured anywhere (no value is ever produced from it) is counted "
-        "(coverage.default_not_honoured) but is not a violation; an INVALID default that is silently discarded is (not reported as an error)",
+        "reading: an accepted default must be honoured: a valid default from which no value is ever produced "
+        "(coverage.default_not_honoured, 0 since fcda3c3/fe21407) is reported as a violation, as is an INVALID default that is silently discarded",
         "`up to filling of nested defaults` = the value serde produces when the schema default itself is deserialised into the generated type",
     ]
     vlib.build_harness(bins=("vh", "c06"))
@@ -1160,10 +1148,9 @@ def run(ctx):
         out[rec.get("outcome", "oracle-error")] = out.get(rec.get("outcome", "oracle-error"), 0) + 1
         ctx.nontrivial.add("k5:%s:%s:%s" % (rec["meta"]["kind"], rec["meta"]["pos"], json.dumps(rec["meta"]["default"])))
         if rec["valid"] and rec["viol"] and {v["kind"] for v in rec["viol"]} == {"default-dropped"}:
+            # since fcda3c3 / fe21407 every accepted valid default is honoured: a dropped one is reported like any
+            # other violation (it is in no finding class)
             not_honoured += 1
-            out["violation"] -= 1
-            out["not-honoured"] = out.get("not-honoured", 0) + 1
-            continue
         if rec.get("outcome") == "valid-default-rejected" and rec["meta"]["kind"].startswith(EXPECT_ACCEPT):
             rec["viol"].append({"kind": "valid-default-rejected", "observed": "add_root_schema: %s" % rec["add"],
                                 "note": "a valid default at the exact length boundary must be accepted and honoured"})
@@ -1181,6 +1168,8 @@ def run(ctx):
     ctx.coverage["k5_corpus_cases"] = n_corpus
     ctx.coverage["k5_outcomes"] = out
     ctx.coverage["default_not_honoured"] = not_honoured
+    ctx.oblige("every accepted valid default is honoured somewhere (default_not_honoured = 0 on %d cases)" % len(recs),
+               not_honoured == 0, "%d valid defaults accepted but never realised" % not_honoured)
     ctx.coverage["k5_compile_errors"] = len(w.compile_errors)
     ctx.coverage["k5_rule"] = ("%d schema kinds x 3 default positions (inline / beside $ref / on the definition) x valid and "
                                "invalid defaults; thorough = whole catalogue, quick = fixed first + seeded picks; ~1/3 with "
